@@ -425,6 +425,7 @@ type FuncSpec struct {
 	Trusted   bool // contract assumed, body not verified (only for listed reasons)
 	MayPanic  bool     // calls may panic (they run code outside the contracts): a panic point for recovering callers
 	Recovers  []Clause // what holds of the named results whenever a panic is recovered
+	From      map[string][]string // callee name suffix -> the only ensures labels of its contract this function needs (empty: none)
 	Models    []Clause // limits of what an assumed contract models: a call outside them is undecided, not a violation
 	Logged    bool // calls are recorded in the ghost event log (events/evis/evarg/evres)
 	Residual  bool // interface-method contract used only for dynamic types outside the module
@@ -521,7 +522,7 @@ func newContractSet() *ContractSet {
 var clauseKeywords = map[string]bool{
 	"requires": true, "ensures": true, "modifies": true, "loop": true, "invariant": true,
 	"decreases": true, "func": true, "extern": true, "spec": true, "lemma": true, "pure": true,
-	"inline": true, "panics": true, "trusted": true, "induction": true, "use": true, "def": true, "call": true, "apply": true, "apply_head": true, "apply_exit": true, "opaque": true, "embedded": true, "guarded": true, "callback": true, "monitor": true, "check_at_store": true, "assume_invariant": true, "residual": true, "models": true, "hidden": true, "reveal": true, "logged": true, "may_panic": true, "recovers": true,
+	"inline": true, "panics": true, "trusted": true, "induction": true, "use": true, "def": true, "call": true, "apply": true, "apply_head": true, "apply_exit": true, "opaque": true, "embedded": true, "guarded": true, "callback": true, "monitor": true, "check_at_store": true, "assume_invariant": true, "residual": true, "from": true, "models": true, "hidden": true, "reveal": true, "logged": true, "may_panic": true, "recovers": true,
 }
 
 // parseContractText parses the body of one or more /*@ ... @*/ blocks (already
@@ -819,6 +820,34 @@ func (cs *ContractSet) parseContractText(text, pkgPath, file string) error {
 		case "logged":
 			if curF != nil {
 				curF.Logged = true
+			}
+		case "from":
+			// from <callee> nothing | from <callee> only l1, l2: which
+			// postconditions of a callee's contract are brought into this
+			// function's proof (keeps queries small)
+			if curF == nil {
+				return fmt.Errorf("%s: from outside a function contract", file)
+			}
+			{
+				r := strings.TrimSpace(rest)
+				var callee string
+				var labels []string
+				if i := strings.Index(r, " only "); i >= 0 {
+					callee = strings.TrimSpace(r[:i])
+					for _, l := range strings.Split(r[i+6:], ",") {
+						if l = strings.TrimSpace(l); l != "" {
+							labels = append(labels, l)
+						}
+					}
+				} else if strings.HasSuffix(r, " nothing") {
+					callee = strings.TrimSpace(strings.TrimSuffix(r, " nothing"))
+				} else {
+					return fmt.Errorf("%s: from <callee> nothing | only <labels>", file)
+				}
+				if curF.From == nil {
+					curF.From = map[string][]string{}
+				}
+				curF.From[callee] = labels
 			}
 		case "models":
 			if curF == nil {
